@@ -42,7 +42,8 @@ ASSUMPTIONS = ["real-valued inputs: finite value lattice per cell (generic membe
                "raw_lengthscale -> lengthscale is softplus (Positive constraint, C17's subject); asserted against kernel.lengthscale",
                "_NgdInterpTerms.forward returns kl = 0 by documented design; its kl gradient is compared with the gradient of the KL formula in the code comments",
                "tril-natural: lower-triangular parameter with positive diagonal (the domain in which theta_mat -> tril factor is a function)",
-               "reference phi/Phi from scipy.special.log_ndtr"]
+               "reference phi/Phi from scipy.special.log_ndtr",
+               "_NgdInterpTerms finite-difference cross-check only with CG tolerance 1e-14 and a generic precision (an early-stopped / eps-safeguarded CG solve is not smooth at the FD scale); the autograd oracle runs in every cell"]
 
 H = 1e-6
 FD_ATOL, FD_RTOL = 1e-7, 1e-5
